@@ -18,7 +18,8 @@
 
   Not modelled (inputs on which the model is NOT claimed faithful are excluded by
   `inDomain`, which the driver evaluates on every compared case):
-    * case folding of kinds / attribute names (`kind.upper()`): names are compared exactly;
+    * case folding of kinds / attribute names (`kind.upper()`): names are compared exactly
+      (type names ARE case-folded: `Ty.ofName`);
     * default values drawn for attributes a positional INSERT leaves out (id generator);
     * deserialisation by column type (values are taken as already well typed);
     * Python's cross-type equality (`1 == 1.0 == True`): corresponding key attributes
@@ -33,6 +34,26 @@ namespace Pyx.Load
 inductive Ty where
   | boolean | integer | real | string | uniqueId
   deriving DecidableEq, Repr, Inhabited
+
+/-- `str.upper()` on an ASCII letter -/
+def upperChar (c : Char) : Char :=
+  if 97 ≤ c.toNat ∧ c.toNat ≤ 122 then Char.ofNat (c.toNat - 32) else c
+
+/-- a type name already upper-cased -/
+def Ty.ofUpper (u : List Char) : Option Ty :=
+  if u = ['B', 'O', 'O', 'L', 'E', 'A', 'N'] then some .boolean
+  else if u = ['I', 'N', 'T', 'E', 'G', 'E', 'R'] then some .integer
+  else if u = ['R', 'E', 'A', 'L'] then some .real
+  else if u = ['S', 'T', 'R', 'I', 'N', 'G'] then some .string
+  else if u = ['U', 'N', 'I', 'Q', 'U', 'E', '_', 'I', 'D'] then some .uniqueId
+  else none
+
+/-- a type name as written in CREATE TABLE: the code upper-cases type names wherever it looks at them
+    (`_is_null`, `deserialize_value`, `default_value`, `serialize_value`, the null test of `MetaClass.new`), so
+    every letter-case spelling of a core type name denotes that type -/
+def Ty.ofChars (cs : List Char) : Option Ty := Ty.ofUpper (cs.map upperChar)
+
+def Ty.ofName (s : String) : Option Ty := Ty.ofChars s.toList
 
 /-- Python values of the five core types; `real` holds the value scaled by 10^6 (the
     harness only uses dyadic values with at most six fraction digits, which `float()` and
@@ -415,36 +436,48 @@ def rowTyped (attrs : List (String × Ty)) (r : Row) : Bool :=
     | some ty => p.2.hasTy ty
     | none => false)
 
+/-- one association inside the domain: key lists without repeats and of equal length, referential attributes
+    declared, corresponding key attributes of the same declared type -/
+def assocInDomain (cs : List Cls) (a : AssocStmt) : Bool :=
+  decide a.srcKeys.Nodup && decide a.tgtKeys.Nodup && a.srcKeys.length == a.tgtKeys.length
+  && a.srcKeys.all (fun n => (attrNames cs a.srcKind).contains n)
+  && (a.srcKeys.zip a.tgtKeys).all (fun p => attrTy cs a.srcKind p.1 == attrTy cs a.tgtKind p.2)
+
+/-- the (kind, name) an identifier statement defines (none for an empty attribute list, which is ignored) -/
+def uniqKey (s : Stmt) : Option (String × String) :=
+  match s with
+  | .uniq k n as => if as.isEmpty then none else some (k, n)
+  | _ => none
+
+/-- one INSERT inside the domain -/
+def insertInDomain (cs : List Cls) (ss : List Stmt) (s : Stmt) : Bool :=
+  match s with
+  | .insert k ns vs =>
+    !vs.contains .none
+    && (match ns with
+        | some ns => decide ns.Nodup
+        | none => true)
+    && (match findCls cs k with
+        | some c =>
+          (match ns with
+           | some (_ :: _) => true
+           | _ => c.attrs.length ≤ vs.length)
+          && rowTyped c.attrs (mkRow c.attrs ns vs)
+        | none =>
+          -- inferred class: every INSERT of the kind infers the same class
+          ss.all (fun s' => match s' with
+            | .insert k' ns' vs' => k' != k || inferAttrs ns' vs' == inferAttrs ns vs
+            | _ => true))
+  | _ => true
+
 def inDomain (ss : List Stmt) : Bool :=
   let cs := popClasses ss
   let as := popAssocs ss
   accepted ss
   && cs.all (fun c => decide (c.attrs.map (·.1)).Nodup)
-  && as.all (fun a =>
-      decide a.srcKeys.Nodup && decide a.tgtKeys.Nodup && a.srcKeys.length == a.tgtKeys.length
-      && a.srcKeys.all (fun n => (attrNames cs a.srcKind).contains n)
-      && (a.srcKeys.zip a.tgtKeys).all (fun p => attrTy cs a.srcKind p.1 == attrTy cs a.tgtKind p.2))
+  && as.all (assocInDomain cs)
   && decide (as.flatMap linkKeys).Nodup
-  && decide ((ss.filterMap (fun s => match s with
-        | .uniq k n as => if as.isEmpty then none else some (k, n)
-        | _ => none)).Nodup)
-  && ss.all (fun s => match s with
-      | .insert k ns vs =>
-        !vs.contains .none
-        && (match ns with
-            | some ns => decide ns.Nodup
-            | none => true)
-        && (match findCls cs k with
-            | some c =>
-              (match ns with
-               | some (_ :: _) => true
-               | _ => c.attrs.length ≤ vs.length)
-              && rowTyped c.attrs (mkRow c.attrs ns vs)
-            | none =>
-              -- inferred class: every INSERT of the kind infers the same class
-              ss.all (fun s' => match s' with
-                | .insert k' ns' vs' => k' != k || inferAttrs ns' vs' == inferAttrs ns vs
-                | _ => true))
-      | _ => true)
+  && decide ((ss.filterMap uniqKey).Nodup)
+  && ss.all (insertInDomain cs ss)
 
 end Pyx.Load
